@@ -377,7 +377,7 @@ func runC07(c *fw.Ctx) {
 		}
 	}
 	// (2) cancel mode with wrappers
-	for i := 0; i < c.PerShard(c.Pick(600, 12000)); i++ {
+	for i := 0; i < c.PerShard(c.Pick(3000, 60000)); i++ {
 		l := c07Loops[r.Intn(len(c07Loops))]
 		after := gen.Pick(r, c07AfterNodes)
 		prog, desc := c07Wrap(r, l.src, 1+r.Intn(4), nonBlocking)
@@ -394,7 +394,7 @@ func runC07(c *fw.Ctx) {
 		}
 	}
 	// (3) deadline mode (wall clock involved only through the deadline itself; verdict on tick timestamps)
-	for i := 0; i < c.PerShard(c.Pick(48, 800)); i++ {
+	for i := 0; i < c.PerShard(c.Pick(96, 2400)); i++ {
 		l := nonBlocking[r.Intn(len(nonBlocking))]
 		dl := time.Duration(300+r.Intn(400)) * time.Millisecond
 		switch r.Intn(3) {
@@ -416,7 +416,7 @@ func runC07(c *fw.Ctx) {
 	}
 	// (4) blocking builtins under asynchronous cancel
 	blocking := []string{"(sleep 60000)", "@(future (sleep 60000))", "@(future (tail-loop 0))", "(try (sleep 60000) (catch e (sleep 60000)))", "(try @(future (sleep 60000)) (finally (sleep 60000)))", "(map (fn (x) (sleep 60000)) [1 2])", "(swap! (atom 0) (fn (n) (sleep 60000)))"}
-	for i := 0; i < c.PerShard(c.Pick(64, 1200)); i++ {
+	for i := 0; i < c.PerShard(c.Pick(160, 4000)); i++ {
 		c07RunBlocking(c, canary, fmt.Sprintf("blocking-%d", i), blocking[r.Intn(len(blocking))], time.Duration(2+r.Intn(40))*time.Millisecond)
 	}
 }
